@@ -48,7 +48,7 @@ def plan(tier, seed):
 
 
 def unit_timeout(tier):
-    return 30 if tier == "quick" else 300
+    return 45 if tier == "quick" else 300
 
 
 def floors(tier):
